@@ -79,6 +79,24 @@ class Check:
             raise MachineryError('TLC run %s on %s failed: %s' % (label, module, (r.violated or r.errors)[:3]))
         return r
 
+    def simulate(self, label, module, spec, consts, invariants, num, depth, timeout=3000):
+        """TLC simulation mode: `num` random behaviours per worker of length <= depth, invariants on every state"""
+        import re
+        cfg = os.path.join(self.tmp, 'sim_%s.cfg' % label)
+        tlc.write_cfg(cfg, spec, consts, invariants=invariants)
+        r = tlc.run_tlc(module, cfg, timeout=timeout, simulate='num=%d' % num, depth=depth, workers=16)
+        m = re.search(r'The number of states generated: (\d+)', r.out)
+        n = int(m.group(1)) if m else 0
+        t = re.findall(r'(\d+) traces generated', r.out)
+        self.tlc_runs.append({'label': label, 'module': module, 'mode': 'simulation', 'constants': _jsonable(consts),
+                              'invariants': list(invariants), 'behaviours': int(t[-1]) if t else 0, 'max_depth': depth,
+                              'states_checked': n, 'wall_s': round(r.wall, 1)})
+        self.transitions += n
+        if r.violated or r.errors or not n:
+            sys.stderr.write(r.out[-6000:])
+            raise MachineryError('TLC simulation %s on %s failed: %s' % (label, module, (r.violated or r.errors)[:3]))
+        return r
+
     # ------------------------------------------------------------------ TLC: witnesses
     def witnesses(self, label, consts, module='USimW', spec='SpecW', emit='Emit', timeout=3000,
                   invariants=(), coverage=False, limit=None):
@@ -125,6 +143,8 @@ class Check:
                         bad = [e for t in part for e in t if _finite(e) != e][:1]
                         self.notes.append('non-finite dates in recorded traces are passed to TLC as strings, e.g. %r' % bad)
             r = tlc.run_tlc(obs_module, cfg, env={'TRACE_FILE': path}, timeout=timeout, workers=4, heap='4g')
+            if r.errors and os.environ.get('VERIF_KEEP'):
+                shutil.copy(path, os.environ['VERIF_KEEP'])
             os.unlink(path)
             return lo, part, r
 
